@@ -89,6 +89,15 @@ Section SIM.
         rewrite <- Hx. f_equal. eapply IH; eauto.
       + destruct tr as [| x tr]; [discriminate |]. simpl in Hs. discriminate.
   Qed.
+  (* every state reached by a precondition-respecting history is related to the abstract state reached by the same history *)
+  Lemma c11_sim_exec : forall ops w ws ws', R w ws ->
+    c11_spec_exec sstep ws ops = Some ws' -> exists w', c11_exec step w ops = C11_ok w' /\ R w' ws'.
+  Proof.
+    induction ops as [| o r IH]; intros w ws ws' HR Hs; simpl in *.
+    - injection Hs as <-. eauto.
+    - destruct (sstep ws o) as [ws1 |] eqn:E; [| discriminate].
+      destruct (Hstep _ _ _ _ HR E) as [w1 [Hw HR1]]. rewrite Hw. simpl. eapply IH; eauto.
+  Qed.
 End SIM.
 
 (* ---------------------------------------------------------------- list helpers *)
